@@ -324,6 +324,9 @@ def stdout_cases(ctx):
         lines = [rng.choice(STDOUT_LINES) for _ in range(rng.choice([1, 3, 8]))]
         if i < len(STDOUT_LINES):
             lines.append(STDOUT_LINES[i])
+        if i in (0, 1, 2, 5):
+            # every collector meets output that is not valid in the parent's stdout encoding (latin-1 text, a binary dump)
+            lines.insert(rng.randint(0, len(lines)), rng.choice([b"\xff\xfe binary\n", b"caf\xe9 latin-1\n"]))
         # only the last line may lack its newline
         lines = [ln if ln.endswith((b"\n", b"\r")) or k == len(lines) - 1 else ln + b"\n" for k, ln in enumerate(lines)]
         data = b"".join(lines)
